@@ -98,6 +98,9 @@ type Lockset struct {
 	Unknown   int // accesses through values whose path could not be determined
 	Calls     int
 	LockPairs []string // problems found with lock pairing (C09.R3)
+	LockOps   int      // lock acquisitions visited on call paths from the roots
+	Reacquire []Access // a lock operation on a mutex that is already held on every path to it (self-deadlock)
+	CallSites []Access // every call executed on behalf of a root, with the lockset held at the call (Path = receiver / first argument)
 	Budget    bool     // analysis budget exhausted (result incomplete => undecided)
 }
 
@@ -287,6 +290,9 @@ func (f *lsFrame) pathOf1(v ssa.Value) string {
 	case *ssa.Convert:
 		return f.pathOf(x.X)
 	case *ssa.MakeInterface:
+		if !hasPointers(x.X.Type(), 0) {
+			return freshPath // a boxed copy of a pointer-free value (e.g. http.NoBody) aliases nothing
+		}
 		return f.pathOf(x.X)
 	case *ssa.ChangeInterface:
 		return f.pathOf(x.X)
@@ -501,6 +507,27 @@ func pointerLike(t types.Type) bool {
 		return true
 	}
 	return false
+}
+
+// hasPointers: a value of type t can reach memory other than itself.
+func hasPointers(t types.Type, depth int) bool {
+	if depth > 6 {
+		return true
+	}
+	switch u := t.Underlying().(type) {
+	case *types.Basic:
+		return u.Kind() == types.UnsafePointer
+	case *types.Struct:
+		for i := 0; i < u.NumFields(); i++ {
+			if hasPointers(u.Field(i).Type(), depth+1) {
+				return true
+			}
+		}
+		return false
+	case *types.Array:
+		return hasPointers(u.Elem(), depth+1)
+	}
+	return true
 }
 
 func (a *lsAnalysis) key(fn *ssa.Function, args, free []string, L LS) string {
@@ -801,8 +828,29 @@ func (a *lsAnalysis) recordInstr(f *lsFrame, st *lsState, ins ssa.Instruction) {
 			}
 			return
 		}
-		if _, ok := lockOp(cc); ok {
+		if op, ok := lockOp(cc); ok {
+			lp := f.pathOf(cc.Args[0])
+			if op == "lock" || op == "rlock" {
+				a.out.LockOps++
+			}
+			if held, is := st.L[lp]; is && lp != "" && lp != freshPath {
+				// sync.Mutex / RWMutex are not re-entrant: Lock with the lock held in any mode and
+				// RLock with it held exclusively block forever (R under R is only a potential deadlock
+				// and is not reported).
+				if op == "lock" || (op == "rlock" && held == 'W') {
+					a.out.Reacquire = append(a.out.Reacquire, Access{Path: lp, Mode: string(held), Locks: st.L.clone(), Root: a.root, Fn: f.fn, Instr: ins, What: op})
+				}
+			}
 			return
+		}
+		{
+			rp := ""
+			if cc.IsInvoke() {
+				rp = f.pathOf(cc.Value)
+			} else if len(cc.Args) > 0 {
+				rp = f.pathOf(cc.Args[0])
+			}
+			a.out.CallSites = append(a.out.CallSites, Access{Path: rp, Mode: "C", Locks: st.L.clone(), Root: a.root, Fn: f.fn, Instr: ins, What: "call"})
 		}
 		a.recordForeign(f, st, x, rec)
 	}
@@ -841,6 +889,9 @@ func (a *lsAnalysis) recordForeign(f *lsFrame, st *lsState, c *ssa.Call, rec fun
 		}
 		if it, ok := arg.Type().(*types.Named); ok && safeIface(it) {
 			continue
+		}
+		if mi, ok := arg.(*ssa.MakeInterface); ok && !hasPointers(mi.X.Type(), 0) {
+			continue // a boxed copy of a pointer-free value (e.g. http.NoBody) aliases nothing
 		}
 		if pa := f.pathOf(arg); shared(pa) {
 			rec(pa+".*", "W", "passed to "+o.Pkg().Name()+"."+objName(o))
